@@ -76,10 +76,13 @@ pub(crate) fn parse_values(
                     lit: Lit::Int(i), ..
                 }) = num
                 {
-                    if let Ok(mut i) = i.base10_parse::<i64>() {
-                        if negate {
-                            i = -i;
-                        }
+                    // parse the magnitude wider than i64, so that i64::MIN (whose magnitude is
+                    // not an i64) is accepted once the sign is applied
+                    if let Some(i) = i
+                        .base10_parse::<i128>()
+                        .ok()
+                        .and_then(|i| i64::try_from(if negate { -i } else { i }).ok())
+                    {
                         if sorted.value && !values.is_empty() && i < last {
                             emit_error!(span, Error::FieldsNotValueSorted);
                         }
